@@ -253,16 +253,17 @@ class C09(Check):
                 items = sorted(rng.randint(0, 30) for _ in range(ln))
             if k % 3 == 0:
                 case = {'kind': 'named', 'op': NAMED[(k // 3) % len(NAMED)], 'ctx': ctx, 'ctx_node': node, 'items': items}
-                if case['op'][0] in ('duc', 'min', 'max', 'to_list', 'batch', 'count') and (k // 3) % 4 == 1 and ctx != 'time_split':
+                turn = rng.randrange(4)     # (drawn: (k // 3) % 4 beats with the context turn k % 7)
+                if case['op'][0] in ('duc', 'min', 'max', 'to_list', 'batch', 'count') and turn == 1 and ctx != 'time_split':
                     case['conv'] = 'np'          # numpy.int64 items: comparisons return numpy.bool_, not the object True
-                elif case['op'][0] in ('variance', 'mean') and (k // 3) % 4 == 3 and ctx in ('plain', 'mux', 'roll', 'roll_eq'):
+                elif case['op'][0] in ('variance', 'mean') and turn in (0, 3) and ctx in ('plain', 'mux', 'roll', 'roll_eq'):
                     case['conv'] = 'npvec'       # numpy float vectors: objects with IN-PLACE arithmetic (`m += d` changes the object m names)
-                elif case['op'][0] in ('variance', 'min', 'max', 'count', 'to_list', 'duc') and (k // 3) % 4 == 2 and ctx != 'time_split':
-                    case['conv'] = ('fraction', 'decimal')[(k // 12) % 2]
+                elif case['op'][0] in ('variance', 'min', 'max', 'count', 'to_list', 'duc') and turn == 2 and ctx != 'time_split':
+                    case['conv'] = ('fraction', 'decimal')[rng.randrange(2)]
                 yield case
             else:
                 acc, seedn, terms = COMBOS[(k // 3) % len(COMBOS)]
-                yield {'kind': 'generic', 'acc': acc, 'seed': seedn, 'term': terms[(k // 5) % len(terms)], 'reduce': (k // 2) % 2 == 0,
+                yield {'kind': 'generic', 'acc': acc, 'seed': seedn, 'term': terms[(k // 5) % len(terms)], 'reduce': rng.random() < 0.5,
                        'ctx': ctx, 'ctx_node': node, 'items': items, 'factory_form': ['function', 'partial', 'callable_object'][(k // 7) % 3]}
 
     # ------------------------------------------------------------------
